@@ -443,7 +443,10 @@ def overlap_ops(case, log):
         if kind == 'A+':
             flush_seq()
             structlevel = op[0] in ('readStruct', 'writeStruct')
+            # a generated member method of the combined layout: several steps, what the others do goes to the step it precedes
+            composite = case['combined'] and ((op[0] == 'readMember' and op[1] not in hasR) or (op[0] == 'writeMember' and op[1] not in hasW))
             access = {'t': t, 'ki': (k, i), 'op': op, 'overlapped': structlevel and not case['combined'], 'structlevel': structlevel,
+                      'composite': composite, 'iv': [],
                       'before': [], 'seen': [], 'atEnd': [], 'afterRead': [], 'beforeErr': [], 'todo': list(members), 'phase': 'loop',
                       'sections': 0, 'inside': False}
             if access['overlapped'] and op[0] == 'writeStruct' and set(dict_in(op[1])) != set(members):
@@ -458,6 +461,11 @@ def overlap_ops(case, log):
             if a['overlapped']:
                 ov = {'before': a['before'], 'seen': a['seen'], 'atEnd': a['atEnd'], 'afterRead': a['afterRead'], 'beforeErr': a['beforeErr']}
                 ops.append([op[0] + 'O'] + wire(op)[1:] + [ov])
+            elif a['composite']:
+                if op[0] == 'readMember':
+                    ops.append(['readMemberO', op[1], op[2], a['iv']])
+                else:
+                    ops.append(['writeMemberO', op[1], op[2], op[3], op[4], op[6], a['iv']])
             else:
                 if a['inside']:
                     return None, None, 'an assignment of another thread inside an access the model treats as one step'
@@ -466,10 +474,23 @@ def overlap_ops(case, log):
             access = None
             flush_seq()
             continue
+        if a['composite']:
+            if kind == 'U-':
+                inU[t] = False
+            elif kind == 'U+' or not inU.get(t):
+                # a step: an update, or a read of the cache outside updateLock
+                if kind != 'U+' and others_inside(t):
+                    return None, None, 'a cache read while another thread is in the middle of an update'
+                a['iv'].append(list(pending))
+                pending.clear()
+                if kind == 'U+':
+                    inU[t] = True
+            continue
         if not a['overlapped']:
             if kind == 'U+':
-                if pending and a['sections'] == 0 and a['structlevel']:
-                    # combined layout, access to the whole struct: one update, what the others did comes before it
+                if pending and a['sections'] == 0:
+                    # one update (an access to the whole struct in the combined layout, a member method written by the
+                    # programmer, a plain wrapper): what the others did so far comes before it
                     flush_seq()
                 elif pending:
                     a['inside'] = True
@@ -1802,8 +1823,9 @@ def conc_model_req(case, trace, info):
     if ops is None:
         return noop
     info['nconc'] = len(ops)
-    info['noverlap'] = sum(1 for op in ops if op[0] != 'seq' and (any(b for _, b in op[-1]['before']) or op[-1]['atEnd']
-                                                                 or op[-1]['afterRead'] or op[-1]['beforeErr']))
+    info['noverlap'] = sum(1 for op in ops if op[0] in ('readStructO', 'writeStructO') and (
+        any(b for _, b in op[-1]['before']) or op[-1]['atEnd'] or op[-1]['afterRead'] or op[-1]['beforeErr']))
+    info['ncomposite'] = sum(1 for op in ops if op[0] in ('readMemberO', 'writeMemberO') and any(op[-1]))
     allops = [['seq', op[:-1]] for op in case['pre']] + ops + [['seq', op[:-1]] for op in case['ops']]
     return {'p': 'C18', 'k': 'struct_overlap', 'members': case['members'], 'hasRS': case['hasRS'], 'hasWS': case['hasWS'],
             'hasR': case['hasR'], 'hasW': case['hasW'], 'omit': bool(case.get('omit')), 'sP0': trace[0]['sP'],
@@ -1999,6 +2021,8 @@ def _run_conc(ctx, res, corpus, big):
             res.count('structconc.compared-with-the-model')
             if info['noverlap']:
                 res.count('structconc.compared-with-assignments-inside-a-struct-access')
+            if info['ncomposite']:
+                res.count('structconc.compared-with-assignments-inside-a-generated-member-method')
             if ctx.model_ok:
                 d = conc_compare(case, trace, info, model)
                 if d is not None and len(res.disagreements) < 20:
